@@ -144,7 +144,7 @@ class Builder:
         sfx = '.fz' if fuzz else ''
         units = [(os.path.join(ROOT, 'kit', 'rcdrv.cc'), self.path('rcdrv.o'), SAN + ['-O1'])]
         common_objs = [self.path('rcdrv.o')]
-        for f in ('codec_props1', 'codec_props2') + (('codec_fuzz',) if fuzz else ('codec_main',)):
+        for f in ('codec_util', 'codec_props1', 'codec_props2') + (('codec_fuzz',) if fuzz else ('codec_main',)):
             obj = self.path(f + sfx + '.o')
             units.append((os.path.join(ROOT, 'harness', f + '.cc'), obj, san + ['-O1']))
             common_objs.append(obj)
@@ -165,6 +165,35 @@ class Builder:
         if any(b is None for b in bins):
             return None
         return bins
+
+    def build_tables(self, seed, versions=16):
+        outdir = self.path('tables_%d_%d' % (seed, versions))
+        marker = os.path.join(outdir, '.done')
+        parts = 4
+        if not os.path.exists(marker):
+            cmd = [sys.executable, os.path.join(ROOT, 'verif', 'gen_tables.py'), '--seed', str(seed), '--versions', str(versions),
+                   '--parts', str(parts), '--outdir', outdir]
+            r = subprocess.run(cmd, capture_output=True, text=True)
+            if r.returncode != 0:
+                log('GEN-FAILED', r.stderr)
+                return None
+            open(marker, 'w').write(r.stdout)
+        inc = ['-I', outdir]
+        units = [(os.path.join(ROOT, 'kit', 'rcdrv.cc'), self.path('rcdrv.o'), SAN + ['-O1'])]
+        objs = [self.path('rcdrv.o')]
+        for f in ('codec_util', 'codec_props1', 'codec_props2', 'tables'):
+            obj = self.path(f + '.o')
+            units.append((os.path.join(ROOT, 'harness', f + '.cc'), obj, SAN + ['-O1']))
+            objs.append(obj)
+        for k in list(range(parts)) + ['index']:
+            name = 'tables_part_%s' % k if k != 'index' else 'tables_index'
+            obj = os.path.join(outdir, name + '.o')
+            units.append((os.path.join(outdir, name + '.cc'), obj, SAN + ['-O0'] + inc))
+            objs.append(obj)
+        if not self.compile_many(units):
+            return None
+        out = os.path.join(outdir, 'tables')
+        return out if self.link(objs, out, SAN) else None
 
     def build_single(self, name, src, flags, link_flags=None, gen=None):
         """A one-TU harness. flags: full sanitizer/opt flag list. gen: optional callable producing generated headers."""
@@ -266,6 +295,8 @@ def resolve_binary(b, target, seed):
     if parts[0] in ('codec', 'fuzz'):
         bins = b.build_codec(parts[1], seed if parts[1] == 'random' else 1, fuzz=(parts[0] == 'fuzz'))
         return bins[int(parts[2])] if bins else None
+    if parts[0] == 'tables':
+        return b.build_tables(int(parts[1]), int(parts[2]))
     if parts[0] == 'single':
         spec = props.SINGLES[parts[1]]
         return b.build_single(parts[1], os.path.join(ROOT, spec['src']), spec['flags'], spec.get('link_flags'))
